@@ -136,7 +136,7 @@ Lemma construct_ok w ds e :
   s_type ds = TObj e -> callable (n_kind e) = true ->
   construct w ds =
   Some (W (ws_log w ++ [constr_of ds]) (ws_sorted w) (ws_ents w) (ws_next w) (ws_enabled w)
-          (ws_queue w) (ws_listen w),
+          (ws_queue w) (ws_listen w) (ws_called w) (ws_marks w),
         (Z.of_nat (length (ws_log w)), e)).
 Proof. intros H C. unfold construct, constr_of. now rewrite H, C. Qed.
 
@@ -158,17 +158,18 @@ Lemma pop_procs_spec : forall (ts : list Z) (tps : list dstate),
   foldM pop_proc w tps =
   Some (W (ws_log w ++ map constr_of tps)
           (ws_sorted w ++ combine ts (zseq (Z.of_nat (length (ws_log w))) (length tps)))
-          (ws_ents w) (ws_next w) (ws_enabled w) (ws_queue w) (ws_listen w)).
+          (ws_ents w) (ws_next w) (ws_enabled w) (ws_queue w) (ws_listen w) (ws_called w)
+          (ws_marks w)).
 Proof.
   induction 1 as [|t ds ts tps Ht HF IH]; intros ND w Hfresh.
   - destruct w. cbn. now rewrite !app_nil_r.
   - cbn [foldM]. unfold pop_proc. rewrite (construct_ok w ds _ Ht eq_refl).
     cbn [n_kind tserial n_val]. unfold add_processor.
-    cbn [ws_log ws_sorted ws_ents ws_next ws_enabled ws_queue ws_listen].
+    cbn [ws_log ws_sorted ws_ents ws_next ws_enabled ws_queue ws_listen ws_called ws_marks].
     rewrite (filter_other t (ws_sorted w)) by (apply Hfresh; now left).
     inversion ND as [|? ? Hnin ND']; subst.
     rewrite IH; [| exact ND' |].
-    + cbn [ws_log ws_sorted ws_ents ws_next ws_enabled ws_queue ws_listen].
+    + cbn [ws_log ws_sorted ws_ents ws_next ws_enabled ws_queue ws_listen ws_called ws_marks].
       rewrite of_nat_snoc. cbn [map length zseq combine].
       now rewrite <- !app_assoc.
     + cbn [ws_sorted]. intros t' Hin HI. rewrite map_app in HI. apply in_app_or in HI as [HI|HI].
@@ -187,13 +188,13 @@ Lemma build_comps_spec E : forall ds tds,
   forall w,
   build_comps w tds =
   Some (W (ws_log w ++ map constr_of tds) (ws_sorted w) (ws_ents w) (ws_next w) (ws_enabled w)
-          (ws_queue w) (ws_listen w),
+          (ws_queue w) (ws_listen w) (ws_called w) (ws_marks w),
         combine (zseq (Z.of_nat (length (ws_log w))) (length ds)) (map (ent_of E) ds)).
 Proof.
   induction 1 as [|d t ds tds [Ht Hc] HF IH]; intro w.
   - destruct w. cbn. now rewrite app_nil_r.
   - cbn [build_comps]. rewrite (construct_ok w t _ Ht Hc). rewrite IH.
-    cbn [ws_log ws_sorted ws_ents ws_next ws_enabled ws_queue ws_listen].
+    cbn [ws_log ws_sorted ws_ents ws_next ws_enabled ws_queue ws_listen ws_called ws_marks].
     rewrite of_nat_snoc. cbn [map length zseq combine]. now rewrite <- app_assoc.
 Qed.
 
@@ -234,6 +235,10 @@ Definition qadd (x : Z * (ckind * val)) : list qev :=
   let '(i, (k, eid)) := x in if has_add k then [QAdd i eid] else [].
 Definition lload (x : Z * (ckind * val)) : list Z :=
   let '(i, (k, _)) := x in if has_load k then [i] else [].
+Definition addcb (x : Z * (ckind * val)) : list cb :=
+  let '(i, (k, eid)) := x in if has_add k then [CB i 0 eid true] else [].
+Definition loadcb (x : Z * (ckind * val)) : list cb :=
+  let '(i, (k, _)) := x in if has_load k then [CB i 1 JNull true] else [].
 Definition table_of (E : env) (start : Z) (ds : list ddict) (eid : val) : list (Z * (ckind * val)) :=
   combine (zseq start (length ds)) (map (fun d => (kind_of E d, eid)) ds).
 
@@ -243,11 +248,45 @@ Lemma queue_of_cs E start ds eid :
   = flat_map qadd (table_of E start ds eid).
 Proof. unfold cs_of, table_of. apply flat_map_combine_map. reflexivity. Qed.
 
+Lemma called_of_cs E start ds eid :
+  flat_map (fun c : Z * nsent => if has_add (n_kind (snd c)) then [CB (fst c) 0 eid true] else [])
+           (cs_of E start ds)
+  = flat_map addcb (table_of E start ds eid).
+Proof. unfold cs_of, table_of. apply flat_map_combine_map. reflexivity. Qed.
+
 Lemma listen_of_cs E start ds eid :
   flat_map (fun c : Z * nsent => if has_load (n_kind (snd c)) then [fst c] else [])
            (cs_of E start ds)
   = flat_map lload (table_of E start ds eid).
 Proof. unfold cs_of, table_of. apply flat_map_combine_map. reflexivity. Qed.
+
+(* the state after [lg] more constructor calls, processors [S], entity rows
+   [X] whose component instances are those of [table], and marks [M] *)
+Definition grown (w : wstate) (lg : list constr) (S : list (Z * Z))
+           (X : list (val * list (Z * Z))) (nxt : Z)
+           (table : list (Z * (ckind * val))) (M : list (Z * bool)) : wstate :=
+  W (ws_log w ++ lg) (ws_sorted w ++ S) (ws_ents w ++ X) nxt (ws_enabled w)
+    (if ws_enabled w then ws_queue w else ws_queue w ++ flat_map qadd table)
+    (ws_listen w ++ flat_map lload table)
+    (if ws_enabled w then ws_called w ++ flat_map addcb table else ws_called w)
+    (ws_marks w ++ M).
+
+Lemma grown_grown w lg1 S1 X1 n1 t1 M1 lg2 S2 X2 n2 t2 M2 :
+  grown (grown w lg1 S1 X1 n1 t1 M1) lg2 S2 X2 n2 t2 M2
+  = grown w (lg1 ++ lg2) (S1 ++ S2) (X1 ++ X2) n2 (t1 ++ t2) (M1 ++ M2).
+Proof.
+  unfold grown. cbn [ws_log ws_sorted ws_ents ws_next ws_enabled ws_queue ws_listen ws_called ws_marks].
+  destruct (ws_enabled w); now rewrite !flat_map_app, <- !app_assoc.
+Qed.
+
+Lemma grown_nil w : grown w [] [] [] (ws_next w) [] [] = w.
+Proof. destruct w as [a b c d e f g h i]. unfold grown. cbn. rewrite !app_nil_r. now destruct e. Qed.
+
+Lemma grown_procs w lg S :
+  grown w lg S [] (ws_next w) [] []
+  = W (ws_log w ++ lg) (ws_sorted w ++ S) (ws_ents w) (ws_next w) (ws_enabled w) (ws_queue w)
+      (ws_listen w) (ws_called w) (ws_marks w).
+Proof. unfold grown. cbn [flat_map]. rewrite !app_nil_r. now destruct (ws_enabled w). Qed.
 
 Lemma create_entity_spec E e es used next w start :
   ids_wf (e :: es) used next = true ->
@@ -257,12 +296,9 @@ Lemma create_entity_spec E e es used next w start :
     ~ In eid used /\ id_given_ok (e_id e) eid = true /\
     ids_wf es (if null (ent_dicts e) then used else used ++ [eid]) next' = true /\
     create_entity w (cs_of E start (ent_dicts e)) (e_id e) =
-    Some (W (ws_log w) (ws_sorted w)
-            (ws_ents w ++ (if null (ent_dicts e) then []
-                           else [(eid, row_of (cs_of E start (ent_dicts e)))]))
-            next' (ws_enabled w)
-            (ws_queue w ++ flat_map qadd (table_of E start (ent_dicts e) eid))
-            (ws_listen w ++ flat_map lload (table_of E start (ent_dicts e) eid))).
+    Some (grown w [] [] (if null (ent_dicts e) then []
+                         else [(eid, row_of (cs_of E start (ent_dicts e)))])
+                next' (table_of E start (ent_dicts e) eid) []).
 Proof.
   intros Hwf Hu Hn ND. cbn [ids_wf] in Hwf.
   assert (AUTO : forall oid, (oid = None \/ oid = Some JNull) -> e_id e = oid ->
@@ -272,20 +308,19 @@ Proof.
     ~ In eid used /\ id_given_ok (e_id e) eid = true /\
     ids_wf es (if null (ent_dicts e) then used else used ++ [eid]) next' = true /\
     create_entity w (cs_of E start (ent_dicts e)) (e_id e) =
-    Some (W (ws_log w) (ws_sorted w)
-            (ws_ents w ++ (if null (ent_dicts e) then []
-                           else [(eid, row_of (cs_of E start (ent_dicts e)))]))
-            next' (ws_enabled w)
-            (ws_queue w ++ flat_map qadd (table_of E start (ent_dicts e) eid))
-            (ws_listen w ++ flat_map lload (table_of E start (ent_dicts e) eid)))).
+    Some (grown w [] [] (if null (ent_dicts e) then []
+                         else [(eid, row_of (cs_of E start (ent_dicts e)))])
+                next' (table_of E start (ent_dicts e) eid) [])).
   { intros oid Ho Hid Hrest. exists (JNum (next_auto next used)), (next_auto next used + 1).
     split; [apply next_auto_fresh|]. split; [rewrite Hid; now destruct Ho as [->| ->]|].
     split; [exact Hrest|].
-    unfold create_entity. rewrite Hid, Hu, Hn.
+    unfold create_entity, grown. rewrite Hid, Hu, Hn, !app_nil_r.
     assert (Hk : ~ In (JNum (next_auto next used)) (map fst (ws_ents w)))
       by (rewrite Hu; apply next_auto_fresh).
     destruct Ho as [-> | ->]; cbv beta iota zeta;
-      now rewrite (table_after E _ _ start _ Hk ND), (queue_of_cs E start _ (JNum (next_auto next used))),
+      now rewrite (table_after E _ _ start _ Hk ND),
+        (queue_of_cs E start _ (JNum (next_auto next used))),
+        (called_of_cs E start _ (JNum (next_auto next used))),
         (listen_of_cs E start _ (JNum (next_auto next used))). }
   assert (GIVEN : forall v, e_id e = Some v ->
     (match v with JNum _ | JStr _ => True | _ => False end) ->
@@ -295,24 +330,21 @@ Proof.
     ~ In eid used /\ id_given_ok (e_id e) eid = true /\
     ids_wf es (if null (ent_dicts e) then used else used ++ [eid]) next' = true /\
     create_entity w (cs_of E start (ent_dicts e)) (e_id e) =
-    Some (W (ws_log w) (ws_sorted w)
-            (ws_ents w ++ (if null (ent_dicts e) then []
-                           else [(eid, row_of (cs_of E start (ent_dicts e)))]))
-            next' (ws_enabled w)
-            (ws_queue w ++ flat_map qadd (table_of E start (ent_dicts e) eid))
-            (ws_listen w ++ flat_map lload (table_of E start (ent_dicts e) eid)))).
+    Some (grown w [] [] (if null (ent_dicts e) then []
+                         else [(eid, row_of (cs_of E start (ent_dicts e)))])
+                next' (table_of E start (ent_dicts e) eid) [])).
   { intros v Hid Hshape Hm Hrest. exists v, next.
     apply vmem_notIn in Hm.
     split; [exact Hm|]. split.
     { rewrite Hid. unfold id_given_ok. destruct v; try contradiction; apply val_eqb_refl. }
     split; [exact Hrest|].
-    unfold create_entity. rewrite Hid, Hn.
+    unfold create_entity, grown. rewrite Hid, Hn, !app_nil_r.
     assert (Hk : ~ In v (map fst (ws_ents w))) by (now rewrite Hu).
     destruct v as [| | z | s | | |]; try contradiction; cbv beta iota zeta.
     - now rewrite (table_after E _ _ start _ Hk ND), (queue_of_cs E start _ (JNum z)),
-        (listen_of_cs E start _ (JNum z)).
+        (called_of_cs E start _ (JNum z)), (listen_of_cs E start _ (JNum z)).
     - now rewrite (table_after E _ _ start _ Hk ND), (queue_of_cs E start _ (JStr s)),
-        (listen_of_cs E start _ (JStr s)). }
+        (called_of_cs E start _ (JStr s)), (listen_of_cs E start _ (JStr s)). }
   destruct (e_id e) as [[| b | z | s | l | kv | k i]|] eqn:Hid; try discriminate.
   - apply (AUTO (Some JNull)); auto.
   - apply andb_true_iff in Hwf as [H1 H2]. apply negb_true_iff in H1.
@@ -322,7 +354,7 @@ Proof.
   - apply (AUTO None); auto.
 Qed.
 
-(* ---- all entities ------------------------------------------------------------------------ *)
+(* ---- all entities of one description ------------------------------------------------------ *)
 Definition ent_rel (E : env) (e : edict) (te : option val * list dstate) : Prop :=
   fst te = e_id e /\ Forall2 (comp_rel E) (ent_dicts e) (snd te).
 
@@ -338,70 +370,498 @@ Proof.
     + apply IH. intro HI. apply Hx. now right.
 Qed.
 
-Lemma pop_ents_spec E : forall es tes,
+Lemma pop_ents_spec E rest : forall es tes,
   Forall2 (ent_rel E) es tes ->
   Forall (fun e => NoDup (map (class_serial E) (ent_dicts e))) es ->
-  forall w, ids_wf es (map fst (ws_ents w)) (ws_next w) = true ->
+  forall w, ids_wf (es ++ rest) (map fst (ws_ents w)) (ws_next w) = true ->
   NoDup (map fst (ws_ents w)) ->
   exists newents table next',
-    foldM pop_ent w tes =
-    Some (W (ws_log w ++ map constr_of (flat_map snd tes)) (ws_sorted w)
-            (ws_ents w ++ newents) next' (ws_enabled w)
-            (ws_queue w ++ flat_map qadd table) (ws_listen w ++ flat_map lload table)) /\
+    foldM pop_ent w tes = Some (grown w (map constr_of (flat_map snd tes)) [] newents next' table []) /\
     NoDup (map fst (ws_ents w ++ newents)) /\
-    spec_ents E es (Z.of_nat (length (ws_log w))) (map obs_ent newents) = Some table.
+    spec_items E (map IEnt es) (Z.of_nat (length (ws_log w))) (map obs_ent newents) = Some table /\
+    ids_wf rest (map fst (ws_ents w ++ newents)) next' = true.
 Proof.
   induction 1 as [|e te es tes [Hid Hcs] HF IH]; intros HND w Hwf HK.
-  - exists [], [], (ws_next w). destruct w. cbn. rewrite !app_nil_r. auto.
+  - exists [], [], (ws_next w). cbn [foldM flat_map map]. rewrite grown_nil, app_nil_r. auto.
   - inversion HND as [|? ? ND1 HND']; subst.
     destruct te as [tid tds]. cbn [fst snd] in Hid, Hcs. subst tid.
     cbn [foldM]. unfold pop_ent at 1. cbn [fst snd].
     rewrite (build_comps_spec E _ _ Hcs w). fold (cs_of E (Z.of_nat (length (ws_log w))) (ent_dicts e)).
     set (start := Z.of_nat (length (ws_log w))).
+    change (W (ws_log w ++ map constr_of tds) (ws_sorted w) (ws_ents w) (ws_next w) (ws_enabled w)
+              (ws_queue w) (ws_listen w) (ws_called w) (ws_marks w))
+      with (W (ws_log w ++ map constr_of tds) (ws_sorted w) (ws_ents w) (ws_next w) (ws_enabled w)
+              (ws_queue w) (ws_listen w) (ws_called w) (ws_marks w)).
     set (w1 := W (ws_log w ++ map constr_of tds) (ws_sorted w) (ws_ents w) (ws_next w)
-                 (ws_enabled w) (ws_queue w) (ws_listen w)).
-    destruct (create_entity_spec E e es (map fst (ws_ents w)) (ws_next w) w1 start
+                 (ws_enabled w) (ws_queue w) (ws_listen w) (ws_called w) (ws_marks w)).
+    cbn [app] in Hwf.
+    destruct (create_entity_spec E e (es ++ rest) (map fst (ws_ents w)) (ws_next w) w1 start
                 Hwf eq_refl eq_refl ND1) as [eid [next' [Hfresh [Hgiven [Hrest Hce]]]]].
-    rewrite Hce. cbn [ws_log ws_sorted ws_ents ws_next ws_enabled ws_queue ws_listen w1].
+    rewrite Hce.
     set (X := if null (ent_dicts e) then []
               else [(eid, row_of (cs_of E start (ent_dicts e)))]) in *.
-    set (w2 := W (ws_log w ++ map constr_of tds) (ws_sorted w) (ws_ents w ++ X) next'
-                 (ws_enabled w)
-                 (ws_queue w ++ flat_map qadd (table_of E start (ent_dicts e) eid))
-                 (ws_listen w ++ flat_map lload (table_of E start (ent_dicts e) eid))).
+    set (T := table_of E start (ent_dicts e) eid) in *.
+    assert (G1 : grown w1 [] [] X next' T [] = grown w (map constr_of tds) [] X next' T []).
+    { unfold grown, w1. cbn [ws_log ws_sorted ws_ents ws_next ws_enabled ws_queue ws_listen ws_called ws_marks].
+      now rewrite app_nil_r. }
+    rewrite G1. set (w2 := grown w (map constr_of tds) [] X next' T []).
     assert (Hkeys : map fst (ws_ents w2)
                     = if null (ent_dicts e) then map fst (ws_ents w) else map fst (ws_ents w) ++ [eid]).
-    { cbn [ws_ents w2]. rewrite map_app. unfold X. destruct (null (ent_dicts e)); cbn.
+    { unfold w2, grown. cbn [ws_ents]. rewrite map_app. unfold X. destruct (null (ent_dicts e)); cbn.
       - now rewrite app_nil_r.
       - reflexivity. }
     assert (HK2 : NoDup (map fst (ws_ents w2))).
     { rewrite Hkeys. destruct (null (ent_dicts e)); [exact HK|]. now apply NoDup_snoc_val. }
-    assert (Hwf2 : ids_wf es (map fst (ws_ents w2)) (ws_next w2) = true).
+    assert (Hwf2 : ids_wf (es ++ rest) (map fst (ws_ents w2)) (ws_next w2) = true).
     { rewrite Hkeys. exact Hrest. }
-    destruct (IH HND' w2 Hwf2 HK2) as [newents [table [next'' [Hfold [HND2 Hspec]]]]].
-    exists (X ++ newents), (table_of E start (ent_dicts e) eid ++ table), next''.
-    split; [|split].
-    + rewrite Hfold. cbn [ws_log ws_sorted ws_ents ws_next ws_enabled ws_queue ws_listen w2].
-      cbn [flat_map snd]. rewrite map_app, !flat_map_app, <- !app_assoc. reflexivity.
-    + cbn [ws_ents w2] in HND2. now rewrite <- app_assoc in HND2.
-    + cbn [spec_ents]. cbn [ws_log w2] in Hspec.
-      pose proof (Forall2_length' _ _ _ Hcs) as Hlen.
-      rewrite app_length, map_length, <- Hlen, Nat2Z.inj_add in Hspec. fold start in Hspec.
+    destruct (IH HND' w2 Hwf2 HK2) as [newents [table [next'' [Hfold [HND2 [Hspec Hrest2]]]]]].
+    exists (X ++ newents), (T ++ table), next''.
+    assert (EW : ws_ents w2 = ws_ents w ++ X) by reflexivity.
+    rewrite EW, <- app_assoc in HND2, Hrest2.
+    split; [|split; [exact HND2|split; [|exact Hrest2]]].
+    + rewrite Hfold. unfold w2. rewrite grown_grown. cbn [flat_map snd]. now rewrite map_app.
+    + cbn [map spec_items].
+      assert (LW : Z.of_nat (length (ws_log w2)) = start + Z.of_nat (length (ent_dicts e))).
+      { unfold w2, grown. cbn [ws_log]. rewrite app_length, map_length, <- (Forall2_length' _ _ _ Hcs).
+        unfold start. lia. }
+      rewrite LW in Hspec.
       unfold X. destruct (ent_dicts e) as [|d ds] eqn:Eds.
       * cbn [null app map]. cbn [length] in Hspec. rewrite Z.add_0_r in Hspec.
-        rewrite Hspec. reflexivity.
+        unfold T, table_of. cbn [length zseq map combine app]. exact Hspec.
       * cbn [null app map obs_ent fst snd]. rewrite Hgiven.
         rewrite row_of_cs, zlist_eqb_refl. cbn [andb]. rewrite Hspec. reflexivity.
 Qed.
 
-(* ---- the callbacks after enabling ---------------------------------------------------------- *)
-Definition addcb (x : Z * (ckind * val)) : list cb :=
-  let '(i, (k, eid)) := x in if has_add k then [CB i 0 eid true] else [].
-Definition loadcb (x : Z * (ckind * val)) : list cb :=
-  let '(i, (k, _)) := x in if has_load k then [CB i 1 JNull true] else [].
+(* ---- every dict of a description ---------------------------------------------------------- *)
+Definition tfun (E : env) (h : how) : ddict -> option dstate :=
+  match h with HFile ps => transform_dict E ps | HDict => direct_dict E end.
 
-Lemma expected_split x : expected_cbs x = addcb x ++ loadcb x.
-Proof. destruct x as [i [k eid]]. reflexivity. Qed.
+Definition how_ok (E : env) (h : how) : Prop :=
+  match h with HFile ps => 0 < c_depth E /\ ptypes ps = 1%nat | HDict => True end.
+
+Definition good (E : env) (h : how) (d : ddict) : Prop :=
+  dict_wf E h d = true /\ exists t k, class_of E d = Some (t, k) /\ callable k = true.
+
+Lemma class_of_serial_kind E d t k :
+  class_of E d = Some (t, k) -> class_serial E d = t /\ kind_of E d = k.
+Proof.
+  unfold class_serial, kind_of, class_of. intro H. rewrite H. split; [reflexivity|].
+  destruct (slookup (d_type d) (c_ns E)) as [[v k']|]; [|discriminate].
+  destruct v as [| | | | | | rk t']; try discriminate. destruct rk; try discriminate.
+  now injection H as _ ->.
+Qed.
+
+Definition dict_rel (E : env) (h : how) (d : ddict) (ds : dstate) : Prop :=
+  comp_rel E d ds /\ check_constr E (h, d) (constr_of ds) = true.
+
+Lemma tfun_spec E h d :
+  ns_wf E = true -> how_ok E h -> good E h d -> dict_known E (h, d) = false ->
+  match tfun E h d with
+  | Some ds => dict_rel E h d ds
+  | None => dict_open E (h, d) = true
+  end.
+Proof.
+  intros Hns Hh [Hwf [t [k [Hc Hcall]]]] Hk.
+  destruct (class_of_serial_kind E d t k Hc) as [Hs Hkd].
+  destruct h as [|ps]; cbn [tfun].
+  - destruct (direct_dict_spec E d t k Hc) as [ds [-> [R1 R2]]].
+    split; [|exact R2]. unfold comp_rel, ent_of. rewrite Hs, Hkd. now split.
+  - destruct Hh as [Hd Hpt].
+    pose proof (transform_dict_spec E ps d t k Hd Hns Hpt Hwf Hc Hcall Hk) as HT.
+    destruct (transform_dict E ps d) as [ds|]; [|exact HT].
+    destruct HT as [R1 R2]. split; [|exact R2]. unfold comp_rel, ent_of. rewrite Hs, Hkd. now split.
+Qed.
+
+Lemma tfun_list_spec E h ds :
+  ns_wf E = true -> how_ok E h -> Forall (good E h) ds ->
+  existsb (dict_known E) (map (pair h) ds) = false ->
+  match mapM (tfun E h) ds with
+  | Some tds => Forall2 (dict_rel E h) ds tds
+  | None => existsb (dict_open E) (map (pair h) ds) = true
+  end.
+Proof.
+  intros Hns Hh HG. induction HG as [|d ds Hg HG IH]; cbn [existsb mapM map]; intro Hk.
+  - constructor.
+  - apply orb_false_iff in Hk as [Hk1 Hk2].
+    pose proof (tfun_spec E h d Hns Hh Hg Hk1) as HT. specialize (IH Hk2).
+    destruct (tfun E h d) as [td|]; [|now rewrite HT].
+    destruct (mapM (tfun E h) ds) as [tds|]; [|now rewrite IH, orb_true_r].
+    constructor; assumption.
+Qed.
+
+Definition ent_rel2 (E : env) (h : how) (e : edict) (te : option val * list dstate) : Prop :=
+  fst te = e_id e /\ Forall2 (dict_rel E h) (ent_dicts e) (snd te).
+
+Lemma tfun_ents_spec E h es :
+  ns_wf E = true -> how_ok E h -> Forall (fun e => Forall (good E h) (ent_dicts e)) es ->
+  existsb (dict_known E) (map (pair h) (flat_map ent_dicts es)) = false ->
+  match mapM (map_ent (tfun E h)) es with
+  | Some tes => Forall2 (ent_rel2 E h) es tes
+  | None => existsb (dict_open E) (map (pair h) (flat_map ent_dicts es)) = true
+  end.
+Proof.
+  intros Hns Hh HG. induction HG as [|e es Hg HG IH]; cbn [flat_map mapM]; intro Hk.
+  - constructor.
+  - rewrite map_app, existsb_app in Hk. apply orb_false_iff in Hk as [Hk1 Hk2].
+    pose proof (tfun_list_spec E h (ent_dicts e) Hns Hh Hg Hk1) as HT.
+    specialize (IH Hk2). rewrite map_app, existsb_app. unfold map_ent at 1. fold (ent_dicts e).
+    destruct (mapM (tfun E h) (ent_dicts e)) as [tds|]; [|now rewrite HT].
+    destruct (mapM (map_ent (tfun E h)) es) as [tes|]; [|now rewrite IH, orb_true_r].
+    constructor; [|exact IH]. split; [reflexivity|exact HT].
+Qed.
+
+Lemma Forall2_comp_rel E h ds tds : Forall2 (dict_rel E h) ds tds -> Forall2 (comp_rel E) ds tds.
+Proof. induction 1 as [|? ? ? ? [H _]]; constructor; assumption. Qed.
+
+Lemma Forall2_check E h ds tds :
+  Forall2 (dict_rel E h) ds tds ->
+  forall2b (check_constr E) (map (pair h) ds) (map constr_of tds) = true.
+Proof.
+  induction 1 as [|? ? ? ? [_ H]]; cbn [map forall2b]; [reflexivity|]. now rewrite H.
+Qed.
+
+Lemma ents_check E h es tes :
+  Forall2 (ent_rel2 E h) es tes ->
+  forall2b (check_constr E) (map (pair h) (flat_map ent_dicts es))
+           (map constr_of (flat_map snd tes)) = true.
+Proof.
+  induction 1 as [|e te es tes [_ H] _ IH]; cbn [flat_map]; [reflexivity|].
+  rewrite !map_app. apply forall2b_app; [now apply Forall2_check|exact IH].
+Qed.
+
+Lemma ents_rel E h es tes : Forall2 (ent_rel2 E h) es tes -> Forall2 (ent_rel E) es tes.
+Proof.
+  induction 1 as [|e te es tes [H1 H2] _ IH]; constructor; [|exact IH].
+  split; [exact H1|now apply (Forall2_comp_rel E h)].
+Qed.
+
+(* ---- populate_world_from_dict on any world -------------------------------------------------- *)
+Lemma populate_spec E h rest ds tps tes w :
+  Forall2 (dict_rel E h) (proc_dicts ds) tps ->
+  Forall2 (ent_rel2 E h) (optl (w_ents ds)) tes ->
+  (forall d, In d (proc_dicts ds) -> kind_of E d = CProc) ->
+  NoDup (map (class_serial E) (proc_dicts ds)) ->
+  (forall t, In t (map (class_serial E) (proc_dicts ds)) -> ~ In t (map fst (ws_sorted w))) ->
+  Forall (fun e => NoDup (map (class_serial E) (ent_dicts e))) (optl (w_ents ds)) ->
+  ids_wf (optl (w_ents ds) ++ rest) (map fst (ws_ents w)) (ws_next w) = true ->
+  NoDup (map fst (ws_ents w)) ->
+  exists lg X table nxt,
+    populate w (tps, tes) =
+    Some (grown w lg (combine (map (class_serial E) (proc_dicts ds))
+                              (zseq (Z.of_nat (length (ws_log w))) (length (proc_dicts ds))))
+                X nxt table []) /\
+    forall2b (check_constr E) (map (pair h) (all_dicts ds)) lg = true /\
+    NoDup (map fst (ws_ents w ++ X)) /\
+    spec_items E (IGap (length (proc_dicts ds)) :: map IEnt (optl (w_ents ds)))
+               (Z.of_nat (length (ws_log w))) (map obs_ent X) = Some table /\
+    ids_wf rest (map fst (ws_ents w ++ X)) nxt = true.
+Proof.
+  intros TP TE HK ND HF HND Hids HKeys.
+  assert (FP : Forall2 (fun t td => s_type td = TObj (NS (JRef KObj t) CProc))
+                       (map (class_serial E) (proc_dicts ds)) tps).
+  { clear - TP HK. induction TP as [|d td l tl [[H1 H2] _] _ IH]; cbn [map]; constructor.
+    - rewrite H1. unfold ent_of. now rewrite (HK d (or_introl eq_refl)).
+    - apply IH. intros x Hx. apply HK. now right. }
+  pose proof (Forall2_length' _ _ _ TP) as LP.
+  unfold populate. cbn [fst snd]. rewrite (pop_procs_spec _ _ FP ND w HF).
+  rewrite <- grown_procs. rewrite <- LP.
+  set (S := combine (map (class_serial E) (proc_dicts ds))
+                    (zseq (Z.of_nat (length (ws_log w))) (length (proc_dicts ds)))).
+  set (w1 := grown w (map constr_of tps) S [] (ws_next w) [] []).
+  assert (E1 : ws_ents w1 = ws_ents w) by (unfold w1, grown; cbn [ws_ents]; apply app_nil_r).
+  assert (N1 : ws_next w1 = ws_next w) by reflexivity.
+  destruct (pop_ents_spec E rest _ _ (ents_rel E h _ _ TE) HND w1) as
+      [X [table [nxt [Hfold [HN2 [Hspec Hrest]]]]]].
+  { now rewrite E1, N1. }
+  { now rewrite E1. }
+  rewrite E1 in HN2, Hrest.
+  exists (map constr_of tps ++ map constr_of (flat_map snd tes)), X, table, nxt.
+  split; [|split; [|split; [exact HN2|split; [|exact Hrest]]]].
+  - rewrite Hfold. unfold w1. rewrite grown_grown. now rewrite !app_nil_r.
+  - unfold all_dicts. rewrite map_app.
+    apply forall2b_app; [now apply Forall2_check|now apply ents_check].
+  - cbn [spec_items].
+    assert (LW : Z.of_nat (length (ws_log w1))
+                 = Z.of_nat (length (ws_log w)) + Z.of_nat (length (proc_dicts ds))).
+    { unfold w1, grown. cbn [ws_log]. rewrite app_length, map_length, <- LP. lia. }
+    now rewrite LW in Hspec.
+Qed.
+
+(* ---- sequences of steps ------------------------------------------------------------------------ *)
+Fixpoint items_size (its : list item) : nat :=
+  match its with
+  | [] => 0
+  | IGap n :: r => n + items_size r
+  | IEnt e :: r => length (ent_dicts e) + items_size r
+  end.
+
+Lemma items_size_app a b : items_size (a ++ b) = (items_size a + items_size b)%nat.
+Proof. induction a as [|[n|e] a IH]; cbn [app items_size]; lia. Qed.
+
+Lemma items_size_ents es : items_size (map IEnt es) = length (flat_map ent_dicts es).
+Proof. induction es as [|e es IH]; cbn [map items_size flat_map]; [reflexivity|]. rewrite app_length. lia. Qed.
+
+Lemma items_size_step s : items_size (step_items s) = step_size s.
+Proof.
+  unfold step_size. destruct s as [|ps ds|ds|k]; cbn [step_items step_dicts items_size length];
+    try reflexivity; rewrite map_length; unfold all_dicts; rewrite app_length, items_size_ents;
+    reflexivity.
+Qed.
+
+Lemma items_size_steps steps :
+  items_size (flat_map step_items steps) = length (all_hdicts steps).
+Proof.
+  unfold all_hdicts. induction steps as [|s r IH]; cbn [flat_map]; [reflexivity|].
+  rewrite items_size_app, app_length, items_size_step, IH. reflexivity.
+Qed.
+
+Lemma spec_items_app E : forall its1 start obs1 t1 its2 obs2 t2,
+  spec_items E its1 start obs1 = Some t1 ->
+  spec_items E its2 (start + Z.of_nat (items_size its1)) obs2 = Some t2 ->
+  spec_items E (its1 ++ its2) start (obs1 ++ obs2) = Some (t1 ++ t2).
+Proof.
+  induction its1 as [|[n|e] its1 IH]; intros start obs1 t1 its2 obs2 t2 H1 H2;
+    cbn [spec_items app items_size] in *.
+  - destruct obs1; [|discriminate]. injection H1 as <-. cbn [app].
+    now replace (start + Z.of_nat 0) with start in H2 by lia.
+  - apply (IH _ _ _ _ _ _ H1). now replace (start + Z.of_nat n + Z.of_nat (items_size its1))
+      with (start + Z.of_nat (n + items_size its1)) by lia.
+  - destruct (null (ent_dicts e)) eqn:N.
+    + apply (IH _ _ _ _ _ _ H1). destruct (ent_dicts e); [|discriminate]. exact H2.
+    + destruct obs1 as [|[id insts] obs1]; [discriminate|]. cbn [app].
+      destruct (id_given_ok (e_id e) id && zlist_eqb insts (zseq start (length (ent_dicts e))));
+        [|discriminate].
+      destruct (spec_items E its1 (start + Z.of_nat (length (ent_dicts e))) obs1) as [t|] eqn:S;
+        [|discriminate].
+      injection H1 as <-.
+      rewrite (IH _ _ _ its2 obs2 t2 S).
+      * now rewrite <- app_assoc.
+      * now replace (start + Z.of_nat (length (ent_dicts e)) + Z.of_nat (items_size its1))
+          with (start + Z.of_nat (length (ent_dicts e) + items_size its1)) by lia.
+Qed.
+
+Lemma exp_procs_app s1 s2 start :
+  exp_procs (s1 ++ s2) start
+  = exp_procs s1 start ++ exp_procs s2 (start + Z.of_nat (length (all_hdicts s1))).
+Proof.
+  unfold all_hdicts. revert start; induction s1 as [|s r IH]; intro start; cbn [app exp_procs flat_map].
+  - cbn [length]. now replace (start + Z.of_nat 0) with start by lia.
+  - rewrite IH, <- app_assoc, app_length. unfold step_size. do 3 f_equal. lia.
+Qed.
+
+(* what running [steps] from w has added when it ends in w' *)
+Definition extends (E : env) (steps : list step) (rest : list edict) (w w' : wstate) : Prop :=
+  exists lg S X nxt table,
+    w' = grown w lg S X nxt table (exp_marks steps) /\
+    forall2b (check_constr E) (all_hdicts steps) lg = true /\
+    map snd S = exp_procs steps (Z.of_nat (length (ws_log w))) /\
+    map fst S = flat_map (step_ptypes E) steps /\
+    NoDup (map fst (ws_ents w ++ X)) /\
+    spec_items E (flat_map step_items steps) (Z.of_nat (length (ws_log w))) (map obs_ent X)
+      = Some table /\
+    ids_wf rest (map fst (ws_ents w ++ X)) nxt = true.
+
+Lemma extends_app E s1 r1 s2 rest w w1 w2 :
+  extends E s1 r1 w w1 -> extends E s2 rest w1 w2 -> extends E (s1 ++ s2) rest w w2.
+Proof.
+  intros [lg1 [S1 [X1 [n1 [t1 [-> [C1 [P1 [F1 [N1 [I1 _]]]]]]]]]]]
+         [lg2 [S2 [X2 [n2 [t2 [-> [C2 [P2 [F2 [N2 [I2 R2]]]]]]]]]]].
+  assert (LL : Z.of_nat (length (ws_log (grown w lg1 S1 X1 n1 t1 (exp_marks s1))))
+               = Z.of_nat (length (ws_log w)) + Z.of_nat (length (all_hdicts s1))).
+  { unfold grown. cbn [ws_log]. rewrite app_length, <- (forall2b_length _ _ _ C1). lia. }
+  assert (EE : ws_ents (grown w lg1 S1 X1 n1 t1 (exp_marks s1)) = ws_ents w ++ X1) by reflexivity.
+  rewrite LL in P2, I2. rewrite EE, <- app_assoc in N2, R2.
+  exists (lg1 ++ lg2), (S1 ++ S2), (X1 ++ X2), n2, (t1 ++ t2).
+  split; [|split; [|split; [|split; [|split; [exact N2|split; [|exact R2]]]]]].
+  - rewrite grown_grown. unfold exp_marks. now rewrite flat_map_app.
+  - unfold all_hdicts. rewrite flat_map_app. now apply forall2b_app.
+  - now rewrite map_app, exp_procs_app, P1, P2.
+  - now rewrite map_app, flat_map_app, F1, F2.
+  - rewrite flat_map_app, map_app. apply (spec_items_app E _ _ _ _ _ _ _ I1).
+    now rewrite items_size_steps.
+Qed.
+
+(* ---- one step ----------------------------------------------------------------------------------- *)
+Definition step_how (s : step) : option (how * desc) :=
+  match s with
+  | SFile ps ds => Some (HFile ps, ds)
+  | SDict ds => Some (HDict, ds)
+  | _ => None
+  end.
+
+(* the domain of one step, as propositions *)
+Definition step_ok (E : env) (s : step) : Prop :=
+  match step_how s with
+  | Some (h, ds) =>
+      how_ok E h /\
+      Forall (good E h) (proc_dicts ds) /\
+      (forall d, In d (proc_dicts ds) -> kind_of E d = CProc) /\
+      Forall (fun e => Forall (good E h) (ent_dicts e)) (optl (w_ents ds)) /\
+      Forall (fun e => NoDup (map (class_serial E) (ent_dicts e))) (optl (w_ents ds))
+  | None => True
+  end.
+
+Lemma run_step_populating E s h ds w :
+  step_how s = Some (h, ds) ->
+  run_step E w s = match map_desc (tfun E h) ds with Some td => populate w td | None => None end.
+Proof. destruct s; cbn [step_how]; intros [= <- <-]; reflexivity. Qed.
+
+Lemma step_spec E s rest w :
+  ns_wf E = true -> step_ok E s ->
+  existsb (dict_known E) (step_dicts s) = false ->
+  NoDup (step_ptypes E s) ->
+  (forall t, In t (step_ptypes E s) -> ~ In t (map fst (ws_sorted w))) ->
+  ids_wf (step_ents s ++ rest) (map fst (ws_ents w)) (ws_next w) = true ->
+  NoDup (map fst (ws_ents w)) ->
+  match run_step E w s with
+  | Some w' => extends E [s] rest w w'
+  | None => existsb (dict_open E) (step_dicts s) = true
+  end.
+Proof.
+  intros Hns Hok Hk ND HF Hids HK.
+  destruct (step_how s) as [[h ds]|] eqn:SH.
+  - (* a populating step *)
+    unfold step_ok in Hok. rewrite SH in Hok. destruct Hok as [Hh [GP [KP [GE NE]]]].
+    rewrite (run_step_populating E s h ds w SH).
+    assert (SD : step_dicts s = map (pair h) (all_dicts ds))
+      by (destruct s; cbn [step_how] in SH; try discriminate; injection SH as <- <-; reflexivity).
+    assert (SP : step_ptypes E s = map (class_serial E) (proc_dicts ds))
+      by (destruct s; cbn [step_how] in SH; try discriminate; injection SH as <- <-; reflexivity).
+    assert (SE : step_ents s = optl (w_ents ds))
+      by (destruct s; cbn [step_how] in SH; try discriminate; injection SH as <- <-; reflexivity).
+    assert (SI : step_items s = IGap (length (proc_dicts ds)) :: map IEnt (optl (w_ents ds)))
+      by (destruct s; cbn [step_how] in SH; try discriminate; injection SH as <- <-; reflexivity).
+    assert (SZ : step_procs s (Z.of_nat (length (ws_log w)))
+                 = zseq (Z.of_nat (length (ws_log w))) (length (proc_dicts ds)))
+      by (destruct s; cbn [step_how] in SH; try discriminate; injection SH as <- <-; reflexivity).
+    assert (SM : exp_marks [s] = [])
+      by (destruct s; cbn [step_how] in SH; try discriminate; reflexivity).
+    rewrite SD in *. rewrite SP in *. rewrite SE in *.
+    unfold all_dicts in Hk. rewrite map_app, existsb_app in Hk. apply orb_false_iff in Hk as [Hkp Hke].
+    pose proof (tfun_list_spec E h (proc_dicts ds) Hns Hh GP Hkp) as TP.
+    pose proof (tfun_ents_spec E h (optl (w_ents ds)) Hns Hh GE Hke) as TE.
+    unfold map_desc. fold (proc_dicts ds).
+    destruct (mapM (tfun E h) (proc_dicts ds)) as [tps|].
+    2: { unfold all_dicts. now rewrite map_app, existsb_app, TP. }
+    destruct (mapM (map_ent (tfun E h)) (optl (w_ents ds))) as [tes|].
+    2: { unfold all_dicts. now rewrite map_app, existsb_app, TE, orb_true_r. }
+    destruct (populate_spec E h rest ds tps tes w TP TE KP ND HF NE Hids HK)
+      as [lg [X [table [nxt [Hpop [Hchk [HN [Hsp Hrest]]]]]]]].
+    rewrite Hpop.
+    exists lg, (combine (map (class_serial E) (proc_dicts ds))
+                        (zseq (Z.of_nat (length (ws_log w))) (length (proc_dicts ds)))), X, nxt, table.
+    split; [now rewrite SM|]. split.
+    { unfold all_hdicts. cbn [flat_map]. now rewrite app_nil_r, SD. }
+    split.
+    { rewrite map_snd_combine by (now rewrite map_length, zseq_length).
+      cbn [exp_procs]. now rewrite SZ, app_nil_r. }
+    split.
+    { rewrite map_fst_combine by (now rewrite map_length, zseq_length).
+      cbn [flat_map]. now rewrite app_nil_r, SP. }
+    split; [exact HN|]. split; [|exact Hrest].
+    cbn [flat_map]. now rewrite app_nil_r, SI.
+  - (* default processors, marks *)
+    destruct s as [|ps ds|ds|k]; cbn [step_how] in SH; try discriminate; cbn [run_step].
+    + (* default_processors_transformer *)
+      cbn [step_ptypes] in ND, HF. cbn [step_ents app] in Hids.
+      exists [], [(-1, -1); (-2, -2)], [], (ws_next w), [].
+      split.
+      { unfold default_processors, add_processor.
+        cbn [ws_log ws_sorted ws_ents ws_next ws_enabled ws_queue ws_listen ws_called ws_marks].
+        rewrite (filter_other (-1) (ws_sorted w)) by (apply HF; now left).
+        rewrite filter_other.
+        - cbn [exp_marks flat_map]. rewrite grown_procs, app_nil_r, <- app_assoc. reflexivity.
+        - rewrite map_app. intro HI. apply in_app_or in HI as [HI|HI].
+          + apply (HF (-2)); [right; now left|exact HI].
+          + cbn in HI. destruct HI as [HI|[]]. discriminate. }
+      rewrite app_nil_r. repeat split; try reflexivity; assumption.
+    + (* a marking user function *)
+      cbn [step_ents app] in Hids.
+      exists [], [], [], (ws_next w), [].
+      split.
+      { cbn [exp_marks flat_map app]. unfold grown. cbn [flat_map]. rewrite !app_nil_r.
+        now destruct (ws_enabled w). }
+      rewrite app_nil_r. repeat split; try reflexivity; assumption.
+Qed.
+
+(* ---- all steps ------------------------------------------------------------------------------------ *)
+Lemma NoDup_app_disj {A} (l m : list A) x : NoDup (l ++ m) -> In x m -> ~ In x l.
+Proof.
+  induction l as [|a l IH]; cbn [app]; intros ND Hm HI; [destruct HI|].
+  inversion ND as [|? ? Ha ND']; subst. destruct HI as [->|HI].
+  - apply Ha. apply in_or_app. now right.
+  - now apply (IH ND' Hm).
+Qed.
+
+Lemma NoDup_app_l {A} (l m : list A) : NoDup (l ++ m) -> NoDup l.
+Proof.
+  induction l as [|a l IH]; cbn [app]; intro ND; [constructor|].
+  inversion ND as [|? ? Ha ND']; subst. constructor; [|now apply IH].
+  intro HI. apply Ha. apply in_or_app. now left.
+Qed.
+
+Lemma NoDup_app_r {A} (l m : list A) : NoDup (l ++ m) -> NoDup m.
+Proof.
+  induction l as [|a l IH]; cbn [app]; intro ND; [exact ND|].
+  inversion ND; subst. now apply IH.
+Qed.
+
+Lemma NoDup_app_intro {A} (l m : list A) :
+  NoDup l -> NoDup m -> (forall x, In x l -> In x m -> False) -> NoDup (l ++ m).
+Proof.
+  induction l as [|a l IH]; cbn [app]; intros Hl Hm D; [exact Hm|].
+  inversion Hl as [|? ? Ha Hl']; subst. constructor.
+  - intro HI. apply in_app_or in HI as [HI|HI]; [contradiction|]. apply (D a); [now left|exact HI].
+  - apply IH; [exact Hl'|exact Hm|]. intros x H1 H2. apply (D x); [now right|exact H2].
+Qed.
+
+Lemma run_steps_spec E : ns_wf E = true -> forall steps rest w,
+  Forall (step_ok E) steps ->
+  existsb (dict_known E) (all_hdicts steps) = false ->
+  NoDup (flat_map (step_ptypes E) steps) ->
+  (forall t, In t (flat_map (step_ptypes E) steps) -> ~ In t (map fst (ws_sorted w))) ->
+  ids_wf (flat_map step_ents steps ++ rest) (map fst (ws_ents w)) (ws_next w) = true ->
+  NoDup (map fst (ws_ents w)) ->
+  match foldM (run_step E) w steps with
+  | Some w' => extends E steps rest w w'
+  | None => has_open E steps = true
+  end.
+Proof.
+  intros Hns. induction steps as [|s r IH]; intros rest w Hok Hk ND HF Hids HK.
+  - cbn [foldM]. exists [], [], [], (ws_next w), [].
+    cbn [exp_marks flat_map map]. rewrite grown_nil, app_nil_r. cbn [app] in Hids. auto 10.
+  - inversion Hok as [|? ? Hs Hr]; subst.
+    unfold all_hdicts in Hk. cbn [flat_map] in Hk, ND, HF, Hids.
+    rewrite existsb_app in Hk. apply orb_false_iff in Hk as [Hk1 Hk2].
+    rewrite <- app_assoc in Hids.
+    pose proof (step_spec E s (flat_map step_ents r ++ rest) w Hns Hs Hk1
+                  (NoDup_app_l _ _ ND)
+                  (fun t Ht => HF t (in_or_app _ _ _ (or_introl Ht))) Hids HK) as S1.
+    cbn [foldM]. unfold has_open, all_hdicts. cbn [flat_map]. rewrite existsb_app.
+    destruct (run_step E w s) as [w1|]; [|now rewrite S1].
+    pose proof S1 as [lg [S [X [nxt [table [Ew [C1 [P1 [F1 [N1 [I1 R1]]]]]]]]]]].
+    assert (F1' : map fst (ws_sorted w1) = map fst (ws_sorted w) ++ step_ptypes E s).
+    { rewrite Ew. unfold grown. cbn [ws_sorted]. rewrite map_app, F1. cbn [flat_map].
+      now rewrite app_nil_r. }
+    assert (E1 : ws_ents w1 = ws_ents w ++ X) by (now rewrite Ew).
+    assert (X1 : ws_next w1 = nxt) by (now rewrite Ew).
+    specialize (IH rest w1 Hr Hk2 (NoDup_app_r _ _ ND)).
+    rewrite F1', E1, X1 in IH.
+    assert (HF2 : forall t, In t (flat_map (step_ptypes E) r) ->
+                            ~ In t (map fst (ws_sorted w) ++ step_ptypes E s)).
+    { intros t Ht HI. apply in_app_or in HI as [HI|HI].
+      - apply (HF t); [apply in_or_app; now right|exact HI].
+      - exact (NoDup_app_disj _ _ t ND Ht HI). }
+    specialize (IH HF2 R1 N1).
+    destruct (foldM (run_step E) w1 r) as [w2|].
+    + exact (extends_app E [s] _ r rest w w1 w2 S1 IH).
+    + unfold has_open, all_hdicts in IH. now rewrite IH, orb_true_r.
+Qed.
+
+(* ---- the callbacks --------------------------------------------------------------------------------- *)
+Lemma expected_split vh x :
+  expected_cbs vh x = addcb x ++ (if vh then loadcb x else []).
+Proof. destruct x as [i [k eid]]. cbn [expected_cbs addcb loadcb]. now destruct vh. Qed.
 
 Lemma addcb_inst y c : In c (addcb y) -> cb_inst c = fst y.
 Proof.
@@ -415,31 +875,27 @@ Proof.
   intros [<-|[]]. reflexivity.
 Qed.
 
-Lemma zseq_app s n m : zseq s (n + m) = zseq s n ++ zseq (s + Z.of_nat n) m.
+Lemma spec_items_insts E : forall its start obs table,
+  spec_items E its start obs = Some table ->
+  NoDup (map fst table) /\ forall i, In i (map fst table) -> start <= i.
 Proof.
-  revert s; induction n as [|n IH]; intro s; cbn [zseq plus app].
-  - now replace (s + Z.of_nat 0) with s by lia.
-  - rewrite IH. do 3 f_equal. lia.
-Qed.
-
-Lemma spec_ents_fst E : forall es start obs table,
-  spec_ents E es start obs = Some table -> map fst table = zseq start (length table).
-Proof.
-  induction es as [|e es IH]; intros start obs table H; cbn [spec_ents] in H.
-  - destruct obs; [|discriminate]. injection H as <-. reflexivity.
+  induction its as [|[n|e] its IH]; intros start obs table H; cbn [spec_items] in H.
+  - destruct obs; [|discriminate]. injection H as <-. split; [constructor|intros i []].
+  - destruct (IH _ _ _ H) as [A B]. split; [exact A|]. intros i Hi. specialize (B i Hi). lia.
   - destruct (null (ent_dicts e)); [now apply IH in H|].
     destruct obs as [|[id insts] obs]; [discriminate|].
     destruct (id_given_ok (e_id e) id && zlist_eqb insts (zseq start (length (ent_dicts e))));
       [|discriminate].
-    destruct (spec_ents E es (start + Z.of_nat (length (ent_dicts e))) obs) as [t|] eqn:S;
+    destruct (spec_items E its (start + Z.of_nat (length (ent_dicts e))) obs) as [t|] eqn:S;
       [|discriminate].
-    injection H as <-. apply IH in S.
-    assert (L : length (combine (zseq start (length (ent_dicts e)))
-                                (map (fun d => (kind_of E d, id)) (ent_dicts e)))
-                = length (ent_dicts e)).
-    { rewrite combine_length, zseq_length, map_length. lia. }
-    rewrite map_app, app_length, L, zseq_app, S. f_equal.
-    apply map_fst_combine. now rewrite zseq_length, map_length.
+    injection H as <-. destruct (IH _ _ _ S) as [A B].
+    rewrite map_app, map_fst_combine by (now rewrite zseq_length, map_length).
+    split.
+    + apply NoDup_app_intro; [apply zseq_NoDup|exact A|].
+      intros i Hi Ht. apply zseq_In in Hi. specialize (B i Ht). lia.
+    + intros i Hi. apply in_app_or in Hi as [Hi|Hi].
+      * apply zseq_In in Hi. lia.
+      * specialize (B i Hi). lia.
 Qed.
 
 Lemma filter_all (i : Z) (l : list cb) :
@@ -483,20 +939,24 @@ Proof.
   unfold cb_eqb. now rewrite !Z.eqb_refl, val_eqb_refl, eqb_reflx.
 Qed.
 
-Lemma cbs_ok_model table :
+Lemma cbs_ok_model vh table :
   NoDup (map fst table) ->
-  cbs_ok table (flat_map addcb table ++ flat_map loadcb table) = true.
+  cbs_ok vh table (flat_map addcb table ++ (if vh then flat_map loadcb table else [])) = true.
 Proof.
   intro ND. unfold cbs_ok. apply andb_true_iff. split.
   - apply forallb_forall. intros x Hx.
-    rewrite cbs_of_app, (cbs_of_flat_map addcb table x addcb_inst ND Hx),
-      (cbs_of_flat_map loadcb table x loadcb_inst ND Hx), expected_split.
-    apply forall2b_refl, cb_eqb_refl.
+    rewrite cbs_of_app, (cbs_of_flat_map addcb table x addcb_inst ND Hx), expected_split.
+    destruct vh.
+    + rewrite (cbs_of_flat_map loadcb table x loadcb_inst ND Hx).
+      apply forall2b_refl, cb_eqb_refl.
+    + apply forall2b_refl, cb_eqb_refl.
   - apply forallb_forall. intros c Hc. apply existsb_exists.
-    apply in_app_or in Hc as [Hc|Hc]; apply in_flat_map in Hc as [y [Hy Hc]]; exists y;
-      (split; [exact Hy|]).
-    + rewrite (addcb_inst _ _ Hc). apply Z.eqb_refl.
-    + rewrite (loadcb_inst _ _ Hc). apply Z.eqb_refl.
+    apply in_app_or in Hc as [Hc|Hc].
+    + apply in_flat_map in Hc as [y [Hy Hc]]. exists y. split; [exact Hy|].
+      rewrite (addcb_inst _ _ Hc). apply Z.eqb_refl.
+    + destruct vh; [|destruct Hc].
+      apply in_flat_map in Hc as [y [Hy Hc]]. exists y. split; [exact Hy|].
+      rewrite (loadcb_inst _ _ Hc). apply Z.eqb_refl.
 Qed.
 
 Lemma release_queue table (ls : list Z) :
@@ -517,98 +977,28 @@ Proof.
   rewrite map_app, IH. cbn [lload loadcb]. destruct (has_load k); reflexivity.
 Qed.
 
-Lemma release_spec lg so en nx (e : bool) table :
-  release (dispatch_load (W lg so en nx e (flat_map qadd table) (flat_map lload table)))
-  = flat_map addcb table ++ flat_map loadcb table.
+(* what the component doubles have received once the world is enabled *)
+Lemma cbs_final (vh en : bool) lg S X nxt table M :
+  (vh = true -> en = false) ->
+  let w' := grown (w_start en) lg S X nxt table M in
+  let wf := if vh then dispatch_load w' else w' in
+  ws_called wf ++ release wf
+  = flat_map addcb table ++ (if vh then flat_map loadcb table else []).
 Proof.
-  unfold dispatch_load. cbn [ws_listen].
-  destruct (flat_map lload table) as [|i ls] eqn:L; cbn [null].
-  - unfold release. cbn [ws_queue ws_listen]. rewrite release_queue.
-    rewrite <- release_listen, L. cbn [map]. now rewrite app_nil_r.
-  - unfold release. cbn [ws_queue ws_listen ws_log ws_sorted ws_ents ws_next ws_enabled].
-    rewrite flat_map_app, release_queue. cbn [flat_map]. rewrite app_nil_r.
-    now rewrite <- release_listen, L.
-Qed.
-
-(* ---- every dict of the description ------------------------------------------------------------ *)
-Definition good (E : env) (d : ddict) : Prop :=
-  dict_wf E d = true /\ exists t k, class_of E d = Some (t, k) /\ callable k = true.
-
-Lemma class_of_serial_kind E d t k :
-  class_of E d = Some (t, k) -> class_serial E d = t /\ kind_of E d = k.
-Proof.
-  unfold class_serial, kind_of, class_of. intro H. rewrite H. split; [reflexivity|].
-  destruct (slookup (d_type d) (c_ns E)) as [[v k']|]; [|discriminate].
-  destruct v as [| | | | | | rk t']; try discriminate. destruct rk; try discriminate.
-  now injection H as _ ->.
-Qed.
-
-Definition dict_rel (E : env) (d : ddict) (ds : dstate) : Prop :=
-  comp_rel E d ds /\ check_constr E d (constr_of ds) = true.
-
-Lemma transform_list_spec E ds :
-  0 < c_depth E -> ns_wf E = true -> Forall (good E) ds ->
-  existsb (dict_known E) ds = false ->
-  match mapM (transform_dict E) ds with
-  | Some tds => Forall2 (dict_rel E) ds tds
-  | None => existsb dict_open ds = true
-  end.
-Proof.
-  intros Hd Hns HG. induction HG as [|d ds [Hwf [t [k [Hc Hcall]]]] HG IH]; cbn [existsb mapM];
-    intro Hk.
-  - constructor.
-  - apply orb_false_iff in Hk as [Hk1 Hk2].
-    pose proof (transform_dict_spec E d t k Hd Hns Hwf Hc Hcall Hk1) as HT.
-    specialize (IH Hk2).
-    destruct (transform_dict E d) as [td|]; [|now rewrite HT].
-    destruct (mapM (transform_dict E) ds) as [tds|]; [|now rewrite IH, orb_true_r].
-    constructor; [|exact IH].
-    destruct HT as [HT1 HT2]. destruct (class_of_serial_kind E d t k Hc) as [<- <-] .
-    split; [split|]; assumption.
-Qed.
-
-Lemma Forall2_comp_rel E ds tds : Forall2 (dict_rel E) ds tds -> Forall2 (comp_rel E) ds tds.
-Proof. induction 1 as [|? ? ? ? [H _]]; constructor; assumption. Qed.
-
-Lemma Forall2_check E ds tds :
-  Forall2 (dict_rel E) ds tds -> forall2b (check_constr E) ds (map constr_of tds) = true.
-Proof.
-  induction 1 as [|? ? ? ? [_ H]]; cbn [map forall2b]; [reflexivity|]. now rewrite H.
-Qed.
-
-Definition ent_rel2 (E : env) (e : edict) (te : option val * list dstate) : Prop :=
-  fst te = e_id e /\ Forall2 (dict_rel E) (ent_dicts e) (snd te).
-
-Lemma transform_ents_spec E es :
-  0 < c_depth E -> ns_wf E = true -> Forall (fun e => Forall (good E) (ent_dicts e)) es ->
-  existsb (dict_known E) (flat_map ent_dicts es) = false ->
-  match mapM (transform_ent E) es with
-  | Some tes => Forall2 (ent_rel2 E) es tes
-  | None => existsb dict_open (flat_map ent_dicts es) = true
-  end.
-Proof.
-  intros Hd Hns HG. induction HG as [|e es Hg HG IH]; cbn [flat_map mapM]; intro Hk.
-  - constructor.
-  - rewrite existsb_app in Hk. apply orb_false_iff in Hk as [Hk1 Hk2].
-    pose proof (transform_list_spec E (ent_dicts e) Hd Hns Hg Hk1) as HT.
-    specialize (IH Hk2). rewrite existsb_app. unfold transform_ent at 1. fold (ent_dicts e).
-    destruct (mapM (transform_dict E) (ent_dicts e)) as [tds|]; [|now rewrite HT].
-    destruct (mapM (transform_ent E) es) as [tes|]; [|now rewrite IH, orb_true_r].
-    constructor; [|exact IH]. split; [reflexivity|exact HT].
-Qed.
-
-Lemma ents_check E es tes :
-  Forall2 (ent_rel2 E) es tes ->
-  forall2b (check_constr E) (flat_map ent_dicts es) (map constr_of (flat_map snd tes)) = true.
-Proof.
-  induction 1 as [|e te es tes [_ H] _ IH]; cbn [flat_map]; [reflexivity|].
-  rewrite map_app. apply forall2b_app; [now apply Forall2_check|exact IH].
-Qed.
-
-Lemma ents_rel E es tes : Forall2 (ent_rel2 E) es tes -> Forall2 (ent_rel E) es tes.
-Proof.
-  induction 1 as [|e te es tes [H1 H2] _ IH]; constructor; [|exact IH].
-  split; [exact H1|now apply Forall2_comp_rel].
+  intros Hv. cbv zeta. destruct vh.
+  - rewrite (Hv eq_refl). unfold grown, w_start, dispatch_load.
+    cbn [ws_log ws_sorted ws_ents ws_next ws_enabled ws_queue ws_listen ws_called ws_marks app].
+    destruct (flat_map lload table) as [|i ls] eqn:L; cbn [null].
+    + unfold release. cbn [ws_queue ws_listen ws_called app]. rewrite release_queue.
+      rewrite <- release_listen, L. cbn [map]. now rewrite app_nil_r.
+    + unfold release. cbn [ws_queue ws_listen ws_called app].
+      rewrite flat_map_app, release_queue. cbn [flat_map]. rewrite app_nil_r.
+      now rewrite <- release_listen, L.
+  - unfold grown, w_start, release.
+    cbn [ws_log ws_sorted ws_ents ws_next ws_enabled ws_queue ws_listen ws_called ws_marks app].
+    destruct en; cbn [flat_map app].
+    + reflexivity.
+    + now rewrite release_queue, app_nil_r.
 Qed.
 
 (* ---- acceptance is equality with the model's prediction ------------------------------------------ *)
@@ -642,40 +1032,30 @@ Proof.
   apply Z.eqb_eq in H1, H2. apply val_eqb_eq in H3. apply eqb_prop in H4. now subst.
 Qed.
 
+Lemma marks_eqb_eq a b : marks_eqb a b = true -> a = b.
+Proof.
+  apply forall2b_eq. intros [k v] [k' v'] H. cbn [fst snd] in H.
+  apply andb_true_iff in H as [H1 H2]. apply Z.eqb_eq in H1. apply eqb_prop in H2. now subst.
+Qed.
+
+Lemma marks_eqb_refl a : marks_eqb a a = true.
+Proof. apply forall2b_refl. intros [k v]. cbn [fst snd]. now rewrite Z.eqb_refl, eqb_reflx. Qed.
+
 Lemma outcome_eqb_eq a b : outcome_eqb a b = true -> a = b.
 Proof.
-  destruct a as [|[c p e en cb]], b as [|[c' p' e' en' cb']]; cbn [outcome_eqb]; try discriminate;
+  destruct a as [|[c p e en cb m]], b as [|[c' p' e' en' cb' m']]; cbn [outcome_eqb]; try discriminate;
     [reflexivity|].
-  unfold wobs_eqb. cbn [o_constr o_procs o_ents o_enabled o_cbs]. intro H.
+  unfold wobs_eqb. cbn [o_constr o_procs o_ents o_enabled o_cbs o_marks]. intro H.
+  apply andb_true_iff in H as [H H6].
   apply andb_true_iff in H as [H H5]. apply andb_true_iff in H as [H H4].
   apply andb_true_iff in H as [H H3]. apply andb_true_iff in H as [H1 H2].
   apply (forall2b_eq _ constr_eqb_eq) in H1. apply zlist_eqb_eq in H2.
-  apply (forall2b_eq _ cb_eqb_eq) in H5. apply eqb_prop in H4.
+  apply (forall2b_eq _ cb_eqb_eq) in H5. apply eqb_prop in H4. apply marks_eqb_eq in H6.
   assert (e = e').
   { revert H3. apply forall2b_eq. intros [i l] [i' l'] H. cbn [fst snd] in H.
     apply andb_true_iff in H as [Ha Hb]. apply val_eqb_eq in Ha. apply zlist_eqb_eq in Hb.
     now subst. }
   now subst.
-Qed.
-
-(* ---- the domain, taken apart ---------------------------------------------------------------------- *)
-Lemma proc_wf_good E d :
-  proc_wf E d = true ->
-  good E d /\ class_of E d = Some (class_serial E d, CProc) /\ 0 <= class_serial E d.
-Proof.
-  unfold proc_wf. intro H. apply andb_true_iff in H as [H1 H2].
-  destruct (class_of E d) as [[t k]|] eqn:C; [|discriminate].
-  destruct k; try discriminate.
-  destruct (class_of_serial_kind E d t CProc C) as [<- _].
-  split; [split; [exact H1|exists (class_serial E d), CProc; now split]|]. split; [reflexivity|lia].
-Qed.
-
-Lemma comp_wf_good E d : comp_wf E d = true -> good E d.
-Proof.
-  unfold comp_wf. intro H. apply andb_true_iff in H as [H1 H2].
-  destruct (class_of E d) as [[t k]|] eqn:C; [|discriminate].
-  destruct k as [|a l|]; try discriminate.
-  split; [exact H1|exists t, (CComp a l); now split].
 Qed.
 
 Lemma dl_log w : ws_log (dispatch_load w) = ws_log w.
@@ -686,85 +1066,99 @@ Lemma dl_ents w : ws_ents (dispatch_load w) = ws_ents w.
 Proof. unfold dispatch_load. now destruct (null (ws_listen w)). Qed.
 Lemma dl_enabled w : ws_enabled (dispatch_load w) = ws_enabled w.
 Proof. unfold dispatch_load. now destruct (null (ws_listen w)). Qed.
+Lemma dl_marks w : ws_marks (dispatch_load w) = ws_marks w.
+Proof. unfold dispatch_load. now destruct (null (ws_listen w)). Qed.
+
+(* ---- the domain, taken apart ---------------------------------------------------------------------- *)
+Lemma proc_wf_good E h d :
+  proc_wf E h d = true -> good E h d /\ kind_of E d = CProc /\ 0 <= class_serial E d.
+Proof.
+  unfold proc_wf. intro H. apply andb_true_iff in H as [H1 H2].
+  destruct (class_of E d) as [[t k]|] eqn:C; [|discriminate].
+  destruct k; try discriminate.
+  destruct (class_of_serial_kind E d t CProc C) as [<- Hk].
+  split; [split; [exact H1|exists (class_serial E d), CProc; now split]|]. split; [exact Hk|lia].
+Qed.
+
+Lemma comp_wf_good E h d : comp_wf E h d = true -> good E h d.
+Proof.
+  unfold comp_wf. intro H. apply andb_true_iff in H as [H1 H2].
+  destruct (class_of E d) as [[t k]|] eqn:C; [|discriminate].
+  destruct k as [|a l|]; try discriminate.
+  split; [exact H1|exists t, (CComp a l); now split].
+Qed.
+
+Lemma desc_wf_ok E h ds :
+  desc_wf E h ds = true ->
+  Forall (good E h) (proc_dicts ds) /\
+  (forall d, In d (proc_dicts ds) -> kind_of E d = CProc) /\
+  Forall (fun e => Forall (good E h) (ent_dicts e)) (optl (w_ents ds)) /\
+  Forall (fun e => NoDup (map (class_serial E) (ent_dicts e))) (optl (w_ents ds)).
+Proof.
+  unfold desc_wf. intro H. apply andb_true_iff in H as [Hp He].
+  rewrite forallb_forall in Hp. rewrite forallb_forall in He.
+  split; [|split; [|split]].
+  - apply Forall_forall. intros d Hd. now apply proc_wf_good, Hp.
+  - intros d Hd. now apply (proc_wf_good E h d (Hp d Hd)).
+  - apply Forall_forall. intros e Hin. apply Forall_forall. intros d Hd.
+    specialize (He e Hin). unfold ent_wf in He. apply andb_true_iff in He as [Hc _].
+    rewrite forallb_forall in Hc. now apply comp_wf_good, Hc.
+  - apply Forall_forall. intros e Hin. specialize (He e Hin). unfold ent_wf in He.
+    apply andb_true_iff in He as [_ Hn]. now apply znodup_NoDup.
+Qed.
+
+Lemma step_wf_ok E s : step_wf E s = true -> step_ok E s.
+Proof.
+  unfold step_ok. destruct s as [|ps ds|ds|k]; cbn [step_wf step_how]; intro H; try exact I.
+  - apply andb_true_iff in H as [H H3]. apply andb_true_iff in H as [H1 H2].
+    apply Nat.eqb_eq in H2. split; [split; [lia|exact H2]|]. now apply desc_wf_ok.
+  - split; [exact I|]. now apply desc_wf_ok.
+Qed.
 
 (* ---- main lemma: the model's own prediction satisfies the property --------------------------------- *)
-Lemma model_holds E ds :
-  wf_b (Case E ds (model E ds)) = true -> known_b (Case E ds (model E ds)) = false ->
-  holds_b (Case E ds (model E ds)) = true.
+Lemma via_handle_disabled k : via_handle k = true -> init_enabled k = false.
+Proof. destruct k; cbn; congruence. Qed.
+
+Lemma model_holds E k :
+  wf_b (Case E k (model E k)) = true -> known_b (Case E k (model E k)) = false ->
+  holds_b (Case E k (model E k)) = true.
 Proof.
-  unfold wf_b, known_b, holds_b. cbn [c_env c_desc c_obs]. intros Hwf Hk.
-  apply andb_true_iff in Hwf as [Hwf Hids]. apply andb_true_iff in Hwf as [Hwf Hents].
-  apply andb_true_iff in Hwf as [Hwf Hpnd]. apply andb_true_iff in Hwf as [Hwf Hprocs].
-  apply andb_true_iff in Hwf as [Hd Hns]. assert (Hd' : 0 < c_depth E) by lia.
-  unfold all_dicts in Hk. rewrite existsb_app in Hk. apply orb_false_iff in Hk as [Hkp Hke].
-  rewrite forallb_forall in Hprocs. rewrite forallb_forall in Hents.
-  (* processors *)
-  assert (GP : Forall (good E) (proc_dicts ds)).
-  { apply Forall_forall. intros d Hd0. now apply proc_wf_good, Hprocs. }
-  pose proof (transform_list_spec E (proc_dicts ds) Hd' Hns GP Hkp) as TP.
-  (* entities *)
-  assert (GE : Forall (fun e => Forall (good E) (ent_dicts e)) (optl (w_ents ds))).
-  { apply Forall_forall. intros e He. apply Forall_forall. intros d Hd0.
-    specialize (Hents e He). unfold ent_wf in Hents. apply andb_true_iff in Hents as [Hc _].
-    rewrite forallb_forall in Hc. now apply comp_wf_good, Hc. }
-  pose proof (transform_ents_spec E (optl (w_ents ds)) Hd' Hns GE Hke) as TE.
-  unfold model, load, transform_desc. fold (proc_dicts ds).
-  destruct (mapM (transform_dict E) (proc_dicts ds)) as [tps|].
-  2: { unfold has_open, all_dicts. now rewrite existsb_app, TP. }
-  destruct (mapM (transform_ent E) (optl (w_ents ds))) as [tes|].
-  2: { unfold has_open, all_dicts. now rewrite existsb_app, TE, orb_true_r. }
-  (* populate: processors *)
-  assert (FP : Forall2 (fun t td => s_type td = TObj (NS (JRef KObj t) CProc))
-                       (map (class_serial E) (proc_dicts ds)) tps).
-  { clear - TP Hprocs. induction TP as [|d td l tl [[H1 H2] _] _ IH]; cbn [map]; constructor.
-    - rewrite H1. unfold ent_of.
-      destruct (proc_wf_good E d (Hprocs d (or_introl eq_refl))) as [_ [C _]].
-      destruct (class_of_serial_kind E d _ _ C) as [_ ->]. reflexivity.
-    - apply IH. intros x Hx. apply Hprocs. now right. }
-  apply znodup_NoDup in Hpnd.
-  assert (W0 : default_processors w_init = W [] [(-1, -1); (-2, -2)] [] 1 false [] []) by reflexivity.
-  rewrite W0.
-  rewrite (pop_procs_spec _ _ FP Hpnd).
-  2: { cbn [ws_sorted map fst]. intros t Ht. apply in_map_iff in Ht as [d [<- Hd0]].
-       destruct (proc_wf_good E d (Hprocs d Hd0)) as [_ [_ Hge]].
-       cbn [In]. lia. }
-  cbn [ws_log ws_sorted ws_ents ws_next ws_enabled ws_queue ws_listen app length].
-  (* populate: entities *)
-  assert (HND : Forall (fun e => NoDup (map (class_serial E) (ent_dicts e))) (optl (w_ents ds))).
-  { apply Forall_forall. intros e He. specialize (Hents e He). unfold ent_wf in Hents.
-    apply andb_true_iff in Hents as [_ Hn]. now apply znodup_NoDup. }
-  set (w1 := W (map constr_of tps)
-               ((-1, -1) :: (-2, -2) :: combine (map (class_serial E) (proc_dicts ds))
-                                                (zseq (Z.of_nat 0) (length tps)))
-               [] 1 false [] []).
-  destruct (pop_ents_spec E _ _ (ents_rel E _ _ TE) HND w1 Hids (NoDup_nil _))
-    as [newents [table [next' [Hfold [HND2 Hspec]]]]].
-  rewrite Hfold. cbn [ws_log ws_sorted ws_ents ws_next ws_enabled ws_queue ws_listen w1 app].
-  cbn [ws_log w1] in Hspec. cbn [ws_ents w1 app] in HND2.
-  pose proof (Forall2_length' _ _ _ TP) as LP.
-  unfold spec_ok, observe.
-  cbn [o_constr o_procs o_ents o_enabled o_cbs].
-  rewrite dl_log, dl_sorted, dl_ents, dl_enabled, release_spec.
-  cbn [ws_log ws_sorted ws_ents ws_enabled].
-  (* constructor calls *)
-  unfold all_dicts. rewrite (forall2b_app _ _ _ _ _ (Forall2_check E _ _ TP) (ents_check E _ _ TE)).
-  (* processors *)
-  cbn [map snd]. rewrite map_snd_combine by (now rewrite map_length, zseq_length).
-  rewrite <- LP. cbn [app Z.of_nat]. rewrite zlist_eqb_refl.
-  (* entities *)
-  rewrite map_map. cbn [fst negb andb].
-  replace (map (fun x : val * list (Z * Z) => fst x) newents) with (map fst newents) by reflexivity.
-  rewrite (proj2 (vnodup_NoDup _) HND2).
-  rewrite map_length, <- LP in Hspec.
-  change (map (fun p : val * list (Z * Z) => (fst p, map snd (snd p))) newents)
-    with (map obs_ent newents).
-  rewrite Hspec. cbn [andb].
-  apply cbs_ok_model. rewrite (spec_ents_fst E _ _ _ _ Hspec). apply zseq_NoDup.
+  unfold wf_b, known_b, holds_b. cbn [c_env c_load c_obs]. intros Hwf Hk.
+  apply andb_true_iff in Hwf as [Hwf Hids]. apply andb_true_iff in Hwf as [Hwf Hnd].
+  apply andb_true_iff in Hwf as [Hwf Hst]. apply andb_true_iff in Hwf as [Hns _].
+  assert (OK : Forall (step_ok E) (steps_of k)).
+  { apply Forall_forall. intros s Hs. rewrite forallb_forall in Hst. now apply step_wf_ok, Hst. }
+  apply znodup_NoDup in Hnd.
+  pose proof (run_steps_spec E Hns (steps_of k) [] (w_start (init_enabled k)) OK Hk Hnd) as R.
+  cbn [w_start ws_sorted ws_ents ws_next map] in R. rewrite app_nil_r in R.
+  specialize (R (fun t _ HI => HI) Hids (NoDup_nil _)).
+  unfold model, load.
+  destruct (foldM (run_step E) (w_start (init_enabled k)) (steps_of k)) as [w'|]; [|exact R].
+  destruct R as [lg [S [X [nxt [table [-> [C1 [P1 [_ [N1 [I1 _]]]]]]]]]]].
+  cbn [w_start ws_log ws_ents length app] in P1, N1, I1. change (Z.of_nat 0) with 0 in P1, I1.
+  unfold spec_ok, observe. cbn [o_constr o_procs o_ents o_enabled o_cbs o_marks].
+  rewrite (cbs_final (via_handle k) (init_enabled k) lg S X nxt table (exp_marks (steps_of k))
+             (via_handle_disabled k)).
+  set (w' := grown (w_start (init_enabled k)) lg S X nxt table (exp_marks (steps_of k))).
+  set (wf := if via_handle k then dispatch_load w' else w').
+  assert (Q : ws_log wf = lg /\ ws_sorted wf = S /\ ws_ents wf = X /\
+              ws_enabled wf = init_enabled k /\ ws_marks wf = exp_marks (steps_of k)).
+  { unfold wf. destruct (via_handle k).
+    - rewrite dl_log, dl_sorted, dl_ents, dl_enabled, dl_marks. unfold w'. cbn. auto.
+    - unfold w'. cbn. auto. }
+  destruct Q as [-> [-> [-> [-> ->]]]].
+  rewrite C1, P1, zlist_eqb_refl, eqb_reflx, marks_eqb_refl. cbn [andb].
+  rewrite map_map. cbn [fst].
+  replace (map (fun x : val * list (Z * Z) => fst x) X) with (map fst X) by reflexivity.
+  rewrite (proj2 (vnodup_NoDup _) N1).
+  change (map (fun p : val * list (Z * Z) => (fst p, map snd (snd p))) X) with (map obs_ent X).
+  rewrite I1. cbn [andb].
+  apply cbs_ok_model. exact (proj1 (spec_items_insts E _ _ _ _ I1)).
 Qed.
 
 Lemma accepts_holds c : wf_b c = true -> known_b c = false -> accepts c = true -> holds c.
 Proof.
-  destruct c as [E ds obs]. unfold accepts. cbn [c_env c_desc c_obs]. intros Hwf Hk Ha.
+  destruct c as [E k obs]. unfold accepts. cbn [c_env c_load c_obs]. intros Hwf Hk Ha.
   apply outcome_eqb_eq in Ha. subst obs. unfold holds. now apply model_holds.
 Qed.
 
@@ -780,35 +1174,40 @@ Proof.
     + now apply (IH m i a).
 Qed.
 
-Lemma holds_spec_ok c w : holds c -> c_obs c = OOk w -> spec_ok (c_env c) (c_desc c) w = true.
+Lemma holds_spec_ok c w : holds c -> c_obs c = OOk w -> spec_ok (c_env c) (c_load c) w = true.
 Proof. intros H Ho. unfold holds, holds_b in H. now rewrite Ho in H. Qed.
 
-Lemma holds_constr c w j d :
-  holds c -> c_obs c = OOk w -> nth_error (all_dicts (c_desc c)) j = Some d ->
-  exists k, nth_error (o_constr w) j = Some k /\ check_constr (c_env c) d k = true.
+Lemma spec_ok_constr E k w :
+  spec_ok E k w = true -> forall2b (check_constr E) (all_hdicts (steps_of k)) (o_constr w) = true.
 Proof.
-  intros H Ho Hn. pose proof (holds_spec_ok c w H Ho) as S. unfold spec_ok in S.
+  unfold spec_ok. intro S.
   apply andb_true_iff in S as [S _]. apply andb_true_iff in S as [S _].
   apply andb_true_iff in S as [S _]. apply andb_true_iff in S as [S _].
+  now apply andb_true_iff in S as [S _].
+Qed.
+
+Lemma holds_constr c w j hd :
+  holds c -> c_obs c = OOk w -> nth_error (all_hdicts (steps_of (c_load c))) j = Some hd ->
+  exists k, nth_error (o_constr w) j = Some k /\ check_constr (c_env c) hd k = true.
+Proof.
+  intros H Ho Hn. pose proof (spec_ok_constr _ _ _ (holds_spec_ok c w H Ho)) as S.
   exact (forall2b_nth _ _ _ _ _ S Hn).
 Qed.
 
 Lemma holds_counts c w :
-  holds c -> c_obs c = OOk w -> length (o_constr w) = length (all_dicts (c_desc c)).
+  holds c -> c_obs c = OOk w -> length (o_constr w) = length (all_hdicts (steps_of (c_load c))).
 Proof.
-  intros H Ho. pose proof (holds_spec_ok c w H Ho) as S. unfold spec_ok in S.
-  apply andb_true_iff in S as [S _]. apply andb_true_iff in S as [S _].
-  apply andb_true_iff in S as [S _]. apply andb_true_iff in S as [S _].
+  intros H Ho. pose proof (spec_ok_constr _ _ _ (holds_spec_ok c w H Ho)) as S.
   symmetry. exact (forall2b_length _ _ _ S).
 Qed.
 
-Lemma holds_arg c w j d i a v :
-  holds c -> c_obs c = OOk w -> nth_error (all_dicts (c_desc c)) j = Some d ->
-  nth_error (optl (d_args d)) i = Some a -> subst_spec (c_env c) a = Exactly v ->
+Lemma holds_arg c w j h d i a v :
+  holds c -> c_obs c = OOk w -> nth_error (all_hdicts (steps_of (c_load c))) j = Some (h, d) ->
+  nth_error (optl (d_args d)) i = Some a -> expected (c_env c) h a = Exactly v ->
   exists k, nth_error (o_constr w) j = Some k /\ nth_error (k_args k) i = Some v
             /\ length (k_args k) = length (optl (d_args d)).
 Proof.
-  intros H Ho Hd Ha Hs. destruct (holds_constr c w j d H Ho Hd) as [k [Hk C]].
+  intros H Ho Hd Ha Hs. destruct (holds_constr c w j (h, d) H Ho Hd) as [k [Hk C]].
   exists k. split; [exact Hk|]. unfold check_constr in C.
   destruct (slookup (d_type d) (c_ns (c_env c))); [|discriminate].
   apply andb_true_iff in C as [C _]. apply andb_true_iff in C as [_ C].
@@ -817,13 +1216,13 @@ Proof.
   split; [exact Hn|]. symmetry. exact (forall2b_length _ _ _ C).
 Qed.
 
-Lemma holds_kwarg c w j d i key a v :
-  holds c -> c_obs c = OOk w -> nth_error (all_dicts (c_desc c)) j = Some d ->
-  nth_error (optl (d_kwargs d)) i = Some (key, a) -> subst_spec (c_env c) a = Exactly v ->
+Lemma holds_kwarg c w j h d i key a v :
+  holds c -> c_obs c = OOk w -> nth_error (all_hdicts (steps_of (c_load c))) j = Some (h, d) ->
+  nth_error (optl (d_kwargs d)) i = Some (key, a) -> expected (c_env c) h a = Exactly v ->
   exists k, nth_error (o_constr w) j = Some k /\ nth_error (k_kwargs k) i = Some (key, v)
             /\ length (k_kwargs k) = length (optl (d_kwargs d)).
 Proof.
-  intros H Ho Hd Ha Hs. destruct (holds_constr c w j d H Ho Hd) as [k [Hk C]].
+  intros H Ho Hd Ha Hs. destruct (holds_constr c w j (h, d) H Ho Hd) as [k [Hk C]].
   exists k. split; [exact Hk|]. unfold check_constr in C.
   destruct (slookup (d_type d) (c_ns (c_env c))); [|discriminate].
   apply andb_true_iff in C as [_ C].
@@ -835,32 +1234,86 @@ Qed.
 
 Lemma holds_world c w :
   holds c -> c_obs c = OOk w ->
-  o_procs w = -1 :: -2 :: zseq 0 (length (proc_dicts (c_desc c))) /\ o_enabled w = false /\
+  o_procs w = exp_procs (steps_of (c_load c)) 0 /\
+  o_enabled w = init_enabled (c_load c) /\
+  o_marks w = exp_marks (steps_of (c_load c)) /\
   NoDup (map fst (o_ents w)).
 Proof.
   intros H Ho. pose proof (holds_spec_ok c w H Ho) as S. unfold spec_ok in S.
-  apply andb_true_iff in S as [S _]. apply andb_true_iff in S as [S S4].
-  apply andb_true_iff in S as [S S3]. apply andb_true_iff in S as [_ S2].
-  split; [now apply zlist_eqb_eq in S2|]. split; [now apply negb_true_iff in S3|].
-  now apply vnodup_NoDup.
+  apply andb_true_iff in S as [S _]. apply andb_true_iff in S as [S S5].
+  apply andb_true_iff in S as [S S4]. apply andb_true_iff in S as [S S3].
+  apply andb_true_iff in S as [_ S2].
+  split; [now apply zlist_eqb_eq in S2|]. split; [now apply eqb_prop in S3|].
+  split; [now apply marks_eqb_eq|]. now apply vnodup_NoDup.
 Qed.
 
 Lemma holds_callbacks c w :
   holds c -> c_obs c = OOk w ->
   exists table,
-    spec_ents (c_env c) (optl (w_ents (c_desc c)))
-              (Z.of_nat (length (proc_dicts (c_desc c)))) (o_ents w) = Some table /\
-    (forall x, In x table -> cbs_of (fst x) (o_cbs w) = expected_cbs x) /\
+    spec_items (c_env c) (flat_map step_items (steps_of (c_load c))) 0 (o_ents w) = Some table /\
+    (forall x, In x table ->
+       cbs_of (fst x) (o_cbs w) = expected_cbs (via_handle (c_load c)) x) /\
     (forall cb0, In cb0 (o_cbs w) -> exists x, In x table /\ fst x = cb_inst cb0).
 Proof.
   intros H Ho. pose proof (holds_spec_ok c w H Ho) as S. unfold spec_ok in S.
   apply andb_true_iff in S as [_ S].
-  destruct (spec_ents _ _ _ _) as [table|]; [|discriminate]. exists table. split; [reflexivity|].
+  destruct (spec_items _ _ _ _) as [table|]; [|discriminate]. exists table. split; [reflexivity|].
   unfold cbs_ok in S. apply andb_true_iff in S as [S1 S2].
   rewrite forallb_forall in S1. rewrite forallb_forall in S2. split.
   - intros x Hx. exact (forall2b_eq _ cb_eqb_eq _ _ (S1 x Hx)).
   - intros cb0 Hc. specialize (S2 cb0 Hc). apply existsb_exists in S2 as [x [Hx E]].
     exists x. split; [exact Hx|now apply Z.eqb_eq].
+Qed.
+
+(* the three ways of loading, spelled out *)
+Lemma file_dicts ds :
+  all_hdicts (steps_of (LFile ds)) = map (pair (HFile default_passes)) (all_dicts ds).
+Proof. unfold all_hdicts. cbn [steps_of flat_map step_dicts app]. apply app_nil_r. Qed.
+
+Lemma file_expected E a : expected E (HFile default_passes) a = subst_spec E a.
+Proof. reflexivity. Qed.
+
+Lemma file_procs ds :
+  exp_procs (steps_of (LFile ds)) 0 = -1 :: -2 :: zseq 0 (length (proc_dicts ds)).
+Proof. cbn [steps_of exp_procs step_procs app]. now rewrite app_nil_r. Qed.
+
+Lemma dict_expected E a : expected E HDict a = Exactly a.
+Proof. reflexivity. Qed.
+
+Lemma custom_expected E ps a :
+  ns_wf E = true -> expected E (HFile ps) a = spec_fold E ps (Exactly a).
+Proof. exact (expected_fold E ps a). Qed.
+
+(* a file loaded by WorldFromFileHandle: the j-th described dict ... *)
+Lemma file_arg E ds obs w j d i a v :
+  holds (Case E (LFile ds) obs) -> obs = OOk w -> nth_error (all_dicts ds) j = Some d ->
+  nth_error (optl (d_args d)) i = Some a -> subst_spec E a = Exactly v ->
+  exists k, nth_error (o_constr w) j = Some k /\ nth_error (k_args k) i = Some v
+            /\ length (k_args k) = length (optl (d_args d)).
+Proof.
+  intros H Ho Hd Ha Hs.
+  apply (holds_arg (Case E (LFile ds) obs) w j (HFile default_passes) d i a v H Ho); try assumption.
+  cbn [c_load]. rewrite file_dicts. now rewrite nth_error_map, Hd.
+Qed.
+
+Lemma file_kwarg E ds obs w j d i key a v :
+  holds (Case E (LFile ds) obs) -> obs = OOk w -> nth_error (all_dicts ds) j = Some d ->
+  nth_error (optl (d_kwargs d)) i = Some (key, a) -> subst_spec E a = Exactly v ->
+  exists k, nth_error (o_constr w) j = Some k /\ nth_error (k_kwargs k) i = Some (key, v)
+            /\ length (k_kwargs k) = length (optl (d_kwargs d)).
+Proof.
+  intros H Ho Hd Ha Hs.
+  apply (holds_kwarg (Case E (LFile ds) obs) w j (HFile default_passes) d i key a v H Ho); try assumption.
+  cbn [c_load]. rewrite file_dicts. now rewrite nth_error_map, Hd.
+Qed.
+
+Lemma file_world E ds obs w :
+  holds (Case E (LFile ds) obs) -> obs = OOk w ->
+  o_procs w = -1 :: -2 :: zseq 0 (length (proc_dicts ds)) /\ o_enabled w = false /\
+  NoDup (map fst (o_ents w)).
+Proof.
+  intros H Ho. destruct (holds_world _ w H Ho) as [A [B [_ D]]]. cbn [c_load] in A, B.
+  rewrite file_procs in A. auto.
 Qed.
 
 (* the forms, literally *)
@@ -883,9 +1336,6 @@ Qed.
 
 Lemma classify_object_literal b : clean_body b -> classify (m_obj ++ b ++ [125]) = FObj b.
 Proof. intro H. unfold classify. now rewrite (exact_body_literal m_obj b H). Qed.
-
-Lemma not_starts_exact m s : starts_with m s = false -> exact_body m s = None.
-Proof. unfold starts_with, exact_body. now destruct (strip_prefix m s). Qed.
 
 Lemma classify_res_literal b : clean_body b -> classify (m_res ++ b ++ [125]) = FRes b.
 Proof.
